@@ -436,6 +436,19 @@ TARGETS.append(dict(
     alias="def dishonest (m : Option HttpRec) (ph : List Hdr) : Bool := P0f.dishonest m ph\n",
 ))
 
+# ---------------------------------------------------------------------------------------------- C03 / C04 / C18: the option walk
+OPT_FIELDS = (("layout", "List:Nat"), ("quirks", "QSet"), ("mss", "Nat"), ("timestamp", "Nat"), ("window_scale", "Nat"), ("eol_padding_length", "Int"))
+TARGETS.append(dict(
+    module="pyp0f.net.layers.tcp.options", func="TCPOptions.parse", file="TcpOptionsParse", lean="parseOpts", import_="P0f.Model.WireFields",
+    decorators=("classmethod",), pyparams=["cls", "buffer", "is_syn"], params=[("buf", "List Nat"), ("is_syn", "Bool")],
+    ret="Tuple:" + ",".join(t for _, t in OPT_FIELDS), lean_ret="List Nat × QSet × Nat × Nat × Nat × Int",
+    env={"buffer": ("buf", "Bytes"), "is_syn": ("is_syn", "Bool")},
+    list_types={"layout": "List:Nat"}, var_types={"i": "Int", "eol_padding_length": "Int"},
+    fuel="(buf.length + 1)",
+    calls={"Quirk": _quirk0, "cls": _cls_fields(*OPT_FIELDS)},
+    alias="def parseOpts (buf : List Nat) (is_syn : Bool) : List Nat × QSet × Nat × Nat × Nat × Int := P0f.optsTuple (P0f.parseOpts buf is_syn)\n",
+))
+
 for t in TARGETS:
     if "import_" in t:
         t["import"] = t.pop("import_")
